@@ -38,6 +38,8 @@ CONSTANTS
   Imports, Evolves,     \* TRUE: offer VImport/VImportCommit, VEvolve
   Connections,          \* TRUE: offer VGetConnections (hydration with its documented self-repair)
   Seeded,               \* TRUE: behaviours start with index GName created and every id of Ids added
+  SeedMaint,            \* maintenance configuration of the seeded index (Nil, or "mc2": graph retention, so graph vacuum runs)
+  SeedTail,             \* TRUE: the seeded edge history includes b->g; FALSE: b has incoming edges only
   SeedGraph,            \* TRUE (with Seeded): the seed also holds an edge history: a->b linked, soft-unlinked, linked
                         \*   again, and b->g (b has the same relation incoming and outgoing, with different peers)
   GName,                \* the index whose namespace the modelled graph lives in
@@ -727,11 +729,11 @@ Reopen ==
 SeedCfg == CHOOSE c \in Cfgs : TRUE
 SeedVec == CHOOSE v \in Vecs : TRUE
 SeedIds == SetToSeq(Ids)
-SeedIx == FoldLeft(LAMBDA ix, id : IxAdd(ix, id, SeedVec, NoMeta), NewIndex(SeedCfg, Nil, Nil), SeedIds)
-SeedOps == <<[op |-> "VCreate", n |-> GName, cfg |-> SeedCfg, mc |-> Nil, al |-> Nil, res |-> "ok"]>>
+SeedIx == FoldLeft(LAMBDA ix, id : IxAdd(ix, id, SeedVec, NoMeta), NewIndex(SeedCfg, SeedMaint, Nil), SeedIds)
+SeedOps == <<[op |-> "VCreate", n |-> GName, cfg |-> SeedCfg, mc |-> SeedMaint, al |-> Nil, res |-> "ok"]>>
            \o [j \in 1..Len(SeedIds) |-> [op |-> "VAdd", n |-> GName, id |-> SeedIds[j], vec |-> SeedVec,
                                              meta |-> [k \in MKeys |-> Nil], res |-> "ok"]]
-SeedFile == <<CCreate(GName, SeedCfg, Nil, Nil)>> \o [j \in 1..Len(SeedIds) |-> CAdd(GName, SeedIds[j], SeedVec, NoMeta)]
+SeedFile == <<CCreate(GName, SeedCfg, Nil, SeedMaint)>> \o [j \in 1..Len(SeedIds) |-> CAdd(GName, SeedIds[j], SeedVec, NoMeta)]
 
 \* the edge history of the graph seed (timestamps 1..4)
 SeedR == CHOOSE r \in Rels : TRUE
@@ -741,13 +743,14 @@ SeedG == LET g0 == [out |-> NoEdgeSet, in |-> NoEdgeSet]
              g1 == LinkG(g0, "a", "b", SeedR, Nil, SeedW, SeedP, 1)
              g2 == UnlinkG(g1, "a", "b", SeedR, Nil, FALSE, 2)
              g3 == LinkG(g2, "a", "b", SeedR, Nil, SeedW, SeedP, 3)
-         IN LinkG(g3, "b", "g", SeedR, Nil, SeedW, SeedP, 4)
+         IN IF SeedTail THEN LinkG(g3, "b", "g", SeedR, Nil, SeedW, SeedP, 4) ELSE g3
 SeedGOps == <<[op |-> "VLink", s |-> "a", t |-> "b", r |-> SeedR, inv |-> Nil, w |-> SeedW, p |-> SeedP, res |-> "ok"],
               [op |-> "VUnlink", s |-> "a", t |-> "b", r |-> SeedR, inv |-> Nil, hard |-> FALSE, res |-> "ok"],
-              [op |-> "VLink", s |-> "a", t |-> "b", r |-> SeedR, inv |-> Nil, w |-> SeedW, p |-> SeedP, res |-> "ok"],
-              [op |-> "VLink", s |-> "b", t |-> "g", r |-> SeedR, inv |-> Nil, w |-> SeedW, p |-> SeedP, res |-> "ok"]>>
+              [op |-> "VLink", s |-> "a", t |-> "b", r |-> SeedR, inv |-> Nil, w |-> SeedW, p |-> SeedP, res |-> "ok"]>>
+            \o (IF SeedTail THEN <<[op |-> "VLink", s |-> "b", t |-> "g", r |-> SeedR, inv |-> Nil, w |-> SeedW, p |-> SeedP, res |-> "ok"]>> ELSE <<>>)
 SeedGFile == <<CLink("a", "b", SeedR, Nil, SeedW, SeedP, 1), CUnlink("a", "b", SeedR, Nil, FALSE, 2),
-               CLink("a", "b", SeedR, Nil, SeedW, SeedP, 3), CLink("b", "g", SeedR, Nil, SeedW, SeedP, 4)>>
+               CLink("a", "b", SeedR, Nil, SeedW, SeedP, 3)>>
+             \o (IF SeedTail THEN <<CLink("b", "g", SeedR, Nil, SeedW, SeedP, 4)>> ELSE <<>>)
 AllSeedOps == IF Seeded THEN (IF SeedGraph THEN SeedOps \o SeedGOps ELSE SeedOps) ELSE <<>>
 
 Init ==
@@ -755,7 +758,7 @@ Init ==
   /\ IF Seeded
      THEN IF SeedGraph
           THEN /\ mem = [EmptyMem EXCEPT !.ix[GName] = SeedIx, !.out = SeedG.out, !.in = SeedG.in]
-               /\ file = SeedFile \o SeedGFile /\ ops = SeedOps \o SeedGOps /\ clock = 4
+               /\ file = SeedFile \o SeedGFile /\ ops = SeedOps \o SeedGOps /\ clock = (IF SeedTail THEN 4 ELSE 3)
           ELSE mem = [EmptyMem EXCEPT !.ix[GName] = SeedIx] /\ file = SeedFile /\ ops = SeedOps /\ clock = 0
      ELSE mem = EmptyMem /\ file = <<>> /\ ops = <<>> /\ clock = 0
 
